@@ -9,9 +9,17 @@ import os, sys
 sys.path.insert(0, os.path.dirname(os.path.abspath(__file__)))
 import fds_msg
 
-CAP = 2048
+def _read_cap():
+    """socket_transport->max_bytes_read_per_iteration as lifted from /repo by tools/gen/fds.py"""
+    import re
+    p = os.path.join(os.path.dirname(os.path.abspath(__file__)), "..", "..", "coq", "Gen", "FdsTables.v")
+    m = re.search(r"max_bytes_read_per_iteration : N := (\d+)\.", open(p).read())
+    return int(m.group(1))
+
+
+CAP = _read_cap()
 TIMEOUT = 600
-TICK_SHORT, TICK_LONG = 100, 1000
+TICK_SHORT, TICK_MID, TICK_LONG = 100, 400, 1000   # generated histories use MID and LONG only: every sum is >= 200 ms away from TIMEOUT
 UNTIMED = 60000
 
 
@@ -27,6 +35,8 @@ class Hist:
         self.plan = {}          # conn -> list of pending (parts text, nfds to attach) for a split message
         self.cur = {}           # conn -> bytes still to write of the message in progress
         self.short_ticks = 0
+        self.lib = False
+        self.pend = {}          # conn -> estimate of descriptors pending in the bus's loader
 
     def connect(self, neg, listen):
         self.ev.append("C%d%d" % (neg, listen))
@@ -50,6 +60,8 @@ class Hist:
 
     # ---- choices
     def pick_dest(self, c):
+        if self.lib:
+            return "u1"
         r = self.rnd.random()
         others = [x for x in range(self.nconn) if x != c]
         if r < 0.62 and others:
@@ -67,38 +79,68 @@ class Hist:
             return "b"
         return "u9"                               # never existed
 
-    def pick_announced(self):
+    def pick_counts(self, c):
+        """(announced, attached) aimed at the case splits of load_message / _dbus_read_socket_with_unix_fds, using the
+        generator's own estimate of what is pending on c (exact unless the bus dropped something)"""
         m, pm = self.cfg[0], self.cfg[2]
-        pool = [0, 0, 1, 1, 1, 2, 2, m, m, m + 1, max(0, m - 1)]
-        if pm >= 0:
-            pool += [pm, max(0, pm - 1)]
-        return self.rnd.choice(pool)
-
-    def pick_attached(self, a):
-        m = self.cfg[0]
+        pend = self.pend.get(c, 0) if self.neg.get(c) else 0
+        room = max(0, m - pend)
         r = self.rnd.random()
-        if r < 0.55:
-            return a
-        return self.rnd.choice([a + 1, max(0, a - 1), 0, m, m + 1, a + 2, self.rnd.randint(0, m + 1)])
+        small = lambda hi: min(hi, self.rnd.choice([0, 0, 1, 1, 1, 2, 2, 3, hi, hi]))
+        if pm >= 0 and r < 0.10:
+            a = self.rnd.choice([pm, max(0, pm - 1)])           # count policy boundary
+            att = max(0, a - pend)
+        elif r < 0.52:
+            a = small(room)                                     # exactly what is announced
+            att = a
+        elif r < 0.68 and pend > 0:
+            a = self.rnd.randint(1, min(m, pend + room))        # served (partly) from the pending surplus
+            att = max(0, a - pend)
+        elif r < 0.88:
+            a = small(room)                                     # surplus that still fits (up to exactly filling the array)
+            att = a + (self.rnd.choice([1, 1, room - a]) if room > a else 0)
+        elif r < 0.91:
+            a = small(room)
+            att = room + self.rnd.choice([1, 1, 2])             # more than the control buffer takes: MSG_CTRUNC
+        elif r < 0.94:
+            a = self.rnd.randint(1, m)                          # fewer than announced
+            att = max(0, a - pend - self.rnd.choice([1, 1, 2]))
+            if att + pend >= a:
+                a = att + pend + 1
+        elif r < 0.965:
+            a = m + 1                                           # beyond the per-message maximum
+            att = self.rnd.choice([m + 1, room, 0])
+        else:
+            a, att = self.rnd.randint(0, m + 1), self.rnd.randint(0, m + 2)
+        if self.neg.get(c):
+            if att <= room and att + pend >= a:
+                self.pend[c] = pend + att - a
+        return a, att
 
     def new_message(self, c, big=False):
         r = self.rnd.random()
         fixed_ok, valid = True, True
-        if r < 0.04:
+        if r < 0.015:
             fixed_ok = False
-        elif r < 0.09:
+        elif r < 0.035:
             valid = False
         pad = self.rnd.choice([0, 0, 0, 3, 40, 400]) if not big else self.rnd.choice([1900, 2048, 3000, 5000])
-        return self.desc(self.pick_announced(), self.pick_dest(c), pad, fixed_ok, valid, self.rnd.random() < 0.08)
+        a, att = self.pick_counts(c)
+        d = self.desc(a, self.pick_dest(c), pad, fixed_ok, valid, self.rnd.random() < 0.08 and not self.lib)
+        d["_att"] = att
+        return d
 
     # ---- actions
     def act_whole(self, c, big=False):
         d = self.new_message(c, big)
-        self.write(c, [fds_msg.desc_str(d, d["len"])], self.pick_attached(d["nfds"]))
+        self.write(c, [fds_msg.desc_str(d, d["len"])], d["_att"])
 
     def act_two(self, c):
+        self.pend_before = self.pend.get(c, 0)
         d1, d2 = self.new_message(c), self.new_message(c)
-        n = self.rnd.choice([d1["nfds"] + d2["nfds"], d1["nfds"], d1["nfds"] + d2["nfds"] + 1, self.pick_attached(d1["nfds"])])
+        n = d1["_att"] + d2["_att"]
+        if self.rnd.random() < 0.8:
+            n = min(n, max(d1["_att"], self.cfg[0] - self.pend_before))        # one control buffer for the whole write
         self.write(c, [fds_msg.desc_str(d1, d1["len"]), fds_msg.desc_str(d2, d2["len"])], n)
 
     def act_split(self, c, big=False):
@@ -107,7 +149,7 @@ class Hist:
         cuts = sorted(set(self.rnd.sample([1, 8, 15, 16, 17, 20, L // 2, L - 1, L - 8, self.rnd.randint(1, L - 1)], self.rnd.choice([1, 1, 2]))))
         cuts = [x for x in cuts if 0 < x < L]
         sizes = [b - a for a, b in zip([0] + cuts, cuts + [L])]
-        total = self.pick_attached(d["nfds"])
+        total = d["_att"]
         where = self.rnd.random()
         per = [0] * len(sizes)
         if where < 0.55:
@@ -122,7 +164,7 @@ class Hist:
             # the tail of this message and a whole next message in one write
             d2 = self.new_message(c)
             last = pieces[-1]
-            pieces[-1] = (last[0] + [fds_msg.desc_str(d2, d2["len"])], last[1] + self.rnd.choice([0, d2["nfds"]]))
+            pieces[-1] = (last[0] + [fds_msg.desc_str(d2, d2["len"])], last[1] + d2["_att"])
         first = pieces.pop(0)
         self.write(c, first[0], first[1])
         self.plan[c] = pieces
@@ -139,15 +181,44 @@ class Hist:
         self.plan.pop(c, None)
 
     def act_tick(self):
-        if self.short_ticks < 2 and self.rnd.random() < 0.5:
-            self.short_ticks += 1
-            self.ev.append("T.%d" % TICK_SHORT)
-        else:
-            self.ev.append("T.%d" % TICK_LONG)
+        self.ev.append("T.%d" % (TICK_MID if self.rnd.random() < 0.65 else TICK_LONG))
 
     def finish(self):
         for c in range(self.nconn):
             self.ev.append("D.%d" % c)
+
+
+def gen_lib_history(rnd, cfg, nsteps):
+    """library side (harness/c/fds_h.c): connection 0 is the peer the library reads from, connection 1 stands for the
+    application that pops the messages; every message is addressed to 1, no policy, no clock"""
+    h = Hist(rnd, cfg)
+    h.lib = True
+    h.connect(1 if rnd.random() < 0.85 else 0, 0)
+    h.connect(1, 0)
+    for _ in range(nsteps):
+        if 0 in h.plan:
+            if rnd.random() < 0.85:
+                h.continue_plan(0)
+                continue
+        if 0 in h.plan:
+            h.act_disconnect(0)
+            break
+        r = rnd.random()
+        if r < 0.03:
+            h.act_disconnect(0)
+            break
+        elif r < 0.50:
+            h.act_whole(0)
+        elif r < 0.56:
+            h.act_whole(0, big=True)
+        elif r < 0.68:
+            h.act_two(0)
+        elif r < 0.95:
+            h.act_split(0)
+        else:
+            h.act_split(0, big=True)
+    h.finish()
+    return h.ev
 
 
 def gen_history(rnd, cfg, nsteps):
@@ -172,7 +243,7 @@ def gen_history(rnd, cfg, nsteps):
             h.continue_plan(c)
             continue
         r = rnd.random()
-        if timed and r < 0.16:
+        if timed and r < 0.22:
             h.act_tick()
         elif r < 0.08:
             h.act_disconnect(rnd.choice(live))
@@ -188,6 +259,55 @@ def gen_history(rnd, cfg, nsteps):
             h.act_split(c)
         else:
             h.act_split(c, big=True)
+    h.finish()
+    return h.ev
+
+
+def gen_timed_history(rnd, cfg, nsteps):
+    """aimed at check_pending_fds_cb: the count of pending descriptors goes up and down between ticks"""
+    h = Hist(rnd, cfg)
+    m = cfg[0]
+    nsend = rnd.choice([1, 1, 2])
+    for i in range(nsend):
+        h.connect(1, 0)
+    h.connect(rnd.randint(0, 1), 0)
+    rcpt = "u%d" % nsend
+    last = None
+    for _ in range(nsteps):
+        c = rnd.randrange(nsend)
+        if c not in h.live:
+            continue
+        pend = h.pend.get(c, 0)
+        r = rnd.random()
+        # the interesting orders: tick, then the count changes without reaching 0, then tick again
+        if last == "tick" and 0 < pend < m and c not in h.plan and rnd.random() < 0.6:
+            r = 0.4
+        elif last == "up" and rnd.random() < 0.6:
+            r = 0.0
+        last = None
+        if r < 0.34:
+            h.act_tick()
+            last = "tick"
+        elif c in h.plan:
+            h.continue_plan(c)
+        elif r < 0.58 and pend < m:                       # one or more surplus descriptors (count goes up)
+            k = rnd.randint(1, m - pend)
+            d = h.desc(0, rcpt)
+            h.write(c, [fds_msg.desc_str(d, d["len"])], k)
+            h.pend[c] = pend + k
+            last = "up"
+        elif r < 0.76 and pend > 0:                       # a message served from the surplus (count goes down, maybe to 0)
+            k = rnd.randint(1, pend)
+            d = h.desc(k, "u%d" % c)                      # to itself: always deliverable
+            h.write(c, [fds_msg.desc_str(d, d["len"])], 0)
+            h.pend[c] = pend - k
+        elif r < 0.88 and pend == 0:                      # half a message with its descriptors: pending until the rest comes
+            d = h.desc(1, "u%d" % c)
+            cut = rnd.choice([1, 16, 20, d["len"] - 1])
+            h.write(c, [fds_msg.desc_str(d, cut)], 1)
+            h.plan[c] = [(["P:%d" % (d["len"] - cut)], 0)]
+        else:
+            h.act_whole(c)
     h.finish()
     return h.ev
 
@@ -344,4 +464,22 @@ def scenarios():
         W(h, 0, 1, "u1", n=20)                        # half a message with its descriptor
         h.ev.append("T.%d" % TICK_LONG)
     mk("pending-timeout-disarm", (3, TIMEOUT, -1, CAP), timeout_rearm)
+
+    def timeout_no_restart(h):
+        h.connect(1, 0); h.connect(0, 0)
+        W(h, 0, 0, "u1", attach=1)
+        h.ev.append("T.%d" % TICK_MID)
+        W(h, 0, 0, "u1", attach=1)                    # still pending: the timer keeps running from the first descriptor
+        W(h, 0, 1, "u1", attach=0)                    # one taken, one left: still running
+        h.ev.append("T.%d" % TICK_MID)                # 800 ms since it was armed
+    mk("pending-timeout-not-restarted", (3, TIMEOUT, -1, CAP), timeout_no_restart)
+
+    def timeout_two_conns(h):
+        h.connect(1, 0); h.connect(1, 0)
+        W(h, 0, 0, "u1", attach=1)
+        h.ev.append("T.%d" % TICK_MID)
+        W(h, 1, 0, "u0", attach=2)
+        h.ev.append("T.%d" % TICK_MID)                # only connection 0 has waited long enough
+        h.ev.append("T.%d" % TICK_MID)
+    mk("pending-timeout-per-connection", (3, TIMEOUT, -1, CAP), timeout_two_conns)
     return out
